@@ -8,7 +8,7 @@ from .c13_templates import TEMPLATES, TREE_CASES, parse_template, interp_templat
 
 TRUSTED = [
     "Coq 8.16.1 kernel (coqc, vm_compute); no axioms: every theorem is 'Closed under the global context'",
-    "translator vplib/translate/gen_c13_span.py (text pins of composed/compose_location/From<Error> for ErrorMessage/SourceTree::single,new,From<S>/prql_to_tokens/lex_source_recovery/parse_source/load_std_lib/convert_lexer_error/parse_lr_to_pr/Add<usize> for Span/interpolation()/interpolation rebasing/Display for Reason/WithErrorInfo for Error/Resolver::fold_function; fail closed)",
+    "translator vplib/translate/gen_c13_span.py (text pins of composed/compose_location/From<Error> for ErrorMessage/SourceTree::single,new,From<S>/prql_to_tokens/lex_source_recovery/parse_source/lexer_errors_to_byte_spans/load_std_lib/convert_lexer_error/parse_lr_to_pr/Add<usize> for Span/interpolation()/interpolation rebasing/Display for Reason/WithErrorInfo for Error/Resolver::fold_function; fail closed)",
     "Model/Span.v is a hand restatement of those functions and of ariadne-0.5.1 Source::from/get_offset_line/Label::new's assert; it is run against the implementation (harness linecol, compile, c13lex, c13tree, c13compose) on every run",
     "Resolver::fold_function re-spanning (respan_std): hook verif:respan (hooks/respan.diff) logs inputs and output of every error leaving fold_function; in the moving branch the hook evaluates the same setter on a clone, the real value is tied by the chain check (reported span = composed of the outermost out) and the text pin",
     "Model/Lexer.v, Model/LexerGen.v and gen_lex_tables.py (C17: lexer model and regenerated tables, run against the implementation by C17) are reused read-only; Model/InterpSpan.v is proved to erase to Lexer.mq_body",
